@@ -196,6 +196,10 @@ class ConvexSpheropolygon(Shape2D):
         """
         # The arcs are patched by angle, so the angles must lie in [0, 2*pi).
         angles = np.mod(angles, 2 * np.pi)
+        # The construction below works on a flat list of angles; arrays with more
+        # axes (as accepted by the other 2D shapes) are flattened and restored.
+        angles_shape = np.shape(angles)
+        angles = np.ravel(angles)
         num_verts = self.num_vertices
         verts = self._polygon.vertices[:, :2] - self._polygon.centroid[:2]
         if self._polygon.normal[2] < 0:
@@ -269,7 +273,7 @@ class ConvexSpheropolygon(Shape2D):
             c = norm_v**2 - self.radius**2
             kernel[indices] = (-b + np.sqrt(b**2 - 4 * a * c)) / (2 * a)
 
-        return kernel
+        return kernel.reshape(angles_shape) if len(angles_shape) > 1 else kernel
 
     def __repr__(self):
         return (
